@@ -590,9 +590,19 @@ func c02CommentNewline(c *Ctx) {
 		case *ssa.Call:
 			if cal := x.Call.StaticCallee(); cal != nil && cal.Pkg != nil && cal.Pkg.Pkg.Path() == "bytes" && cal.Name() == "HasSuffix" && isTokBytes(x.Call.Args[0]) {
 				// constant suffix "\n"
-				if cv, ok := x.Call.Args[1].(*ssa.Convert); ok {
-					if s, ok := cv.X.(*ssa.Const); ok && s.Value != nil && s.Value.ExactString() == `"\n"` {
+				switch a := x.Call.Args[1].(type) {
+				case *ssa.Convert: // []byte("\n")
+					if s, ok := a.X.(*ssa.Const); ok && s.Value != nil && s.Value.ExactString() == `"\n"` {
 						return true
+					}
+				case *ssa.Slice: // []byte{'\n'}
+					if al, ok := a.X.(*ssa.Alloc); ok {
+						sts := storesInto(al)
+						if len(sts) == 1 {
+							if n, ok := constInt(sts[0].Val); ok && n == '\n' {
+								return true
+							}
+						}
 					}
 				}
 			}
@@ -645,23 +655,7 @@ func c02CommentNewline(c *Ctx) {
 		if !ok {
 			continue
 		}
-		ld, ok := ret.Results[0].(*ssa.UnOp)
-		if !ok {
-			continue
-		}
-		al, ok := ld.X.(*ssa.Alloc)
-		if !ok || al == tokCell {
-			continue
-		}
-		isNL := false
-		for _, st := range storesInto(al) {
-			if fa, ok := st.Addr.(*ssa.FieldAddr); ok && fieldVarOf(fa.X.Type(), fa.Field).Name() == "Type" {
-				if n, ok := constInt(st.Val); ok && n == tnl {
-					isNL = true
-				}
-			}
-		}
-		if !isNL {
+		if !builtNewlineToken(ret.Results[0], tokCell, tnl, 0) {
 			continue
 		}
 		synth++
@@ -733,6 +727,41 @@ func c02CommentNewline(c *Ctx) {
 			"a newline token is not returned exactly when includingNewlines(): either newlines inside brackets become significant or item-terminating newlines are dropped")
 	}
 	c.Check(found, "layout.filter", FuncName(fn)+":newline-arm.present", fn.Pos(), "TokenNewline arm present", "nextToken has no arm for TokenNewline")
+}
+
+// builtNewlineToken: v is a Token built here (or by a helper all of whose returns build one) with
+// Type set to TokenNewline.
+func builtNewlineToken(v ssa.Value, tokCell *ssa.Alloc, tnl int64, depth int) bool {
+	switch x := v.(type) {
+	case *ssa.UnOp:
+		al, ok := x.X.(*ssa.Alloc)
+		if !ok || al == tokCell {
+			return false
+		}
+		for _, st := range storesInto(al) {
+			if fa, ok := st.Addr.(*ssa.FieldAddr); ok && fieldVarOf(fa.X.Type(), fa.Field).Name() == "Type" {
+				if n, ok := constInt(st.Val); ok && n == tnl {
+					return true
+				}
+			}
+		}
+	case *ssa.Call:
+		cal := staticCallee(&x.Call)
+		if cal == nil || depth > 1 || len(cal.Blocks) == 0 {
+			return false
+		}
+		n := 0
+		for _, b := range cal.Blocks {
+			if ret, ok := b.Instrs[len(b.Instrs)-1].(*ssa.Return); ok {
+				n++
+				if len(ret.Results) == 0 || !builtNewlineToken(ret.Results[0], nil, tnl, depth+1) {
+					return false
+				}
+			}
+		}
+		return n > 0
+	}
+	return false
 }
 
 // reachesLoopHead: from b, control returns to a block that dominates `in` without passing a Return.
